@@ -173,8 +173,8 @@ def process_batch(rep, acc, lines, metab, exe, pf, timeout):
             stats["cases_interval_used"] += 1
         stats["interval_evals"] += c["ninterval"]
         stats["splits_compared"] += c["nsplit"]
-        for (_, _nan, fl, em) in c.get("istates", []):
-            stats["filled" if fl == "1" else "empty" if em == "1" else "ambiguous"] += 1
+        for (_, nan, fl, em) in c.get("istates", []):      # as recurse reads it: filled iff safe && isFilled
+            stats["filled" if (fl == "1" and nan == "0") else "empty" if em == "1" else "ambiguous"] += 1
         expect = ["ff800000" if k < 0 else zs[k] for k in c["brute"]]
         for wk, depth in sorted(c["runs"].items()):
             stats["renders"] += 1
@@ -326,6 +326,11 @@ def run(rep, tier, seed, replay=None):
     shapes = {}
     for m in meta:
         shapes[m["shape"]] = shapes.get(m["shape"], 0) + 1
+    ophist = {}
+    for ln in corpus + prog:
+        w = ln.split()
+        if len(w) > 3 and w[0] == "n" and w[2] in ("un", "bin"):
+            ophist[w[3]] = ophist.get(w[3], 0) + 1
     sizes = acc.sizes
     cov = common.proof_coverage(aud, {
         "evaluations": acc.stats["renders"],
@@ -336,7 +341,7 @@ def run(rep, tier, seed, replay=None):
         "correspondence": {"cases": acc.cases_seen, "verdicts": acc.oks, "mismatch": acc.mismatches, **acc.stats},
         "thread_sanitizer": tsan,
         "distribution": {
-            "shapes": shapes, "corpus_cases": len(all_cases) - len(meta),
+            "shapes": shapes, "opcode_histogram": dict(sorted(ophist.items())), "corpus_cases": len(all_cases) - len(meta),
             "grids": {"cases": len(sizes), "single_voxel_axis": sum(1 for s in sizes if 1 in s),
                       "zero_height_or_flat_z": sum(1 for s in sizes if s[2] == 1),
                       "odd_axis": sum(1 for s in sizes if any(x % 2 for x in s)),
